@@ -202,7 +202,16 @@ def run(ctx):
                                            "broken_at": cres.get("broken_at"), "forbidden": bad, "log_tail": cres["log"][-3000:],
                                            "search": "oracle run on %d encoded cases found no failing input" % len(jobs)}, found_input=False)
         if corr:
+            hint = None
+            try:
+                if all(c.get("input") and c["input"].split()[2:4] == ["1", "0"] and
+                       c06_tree.d7_shape(c06_tree.parse_dump(ca[[x[0] for x in cases].index(c["input"])].partition(" | ")[0][5:])[1])
+                       for c in corr[:50] if "model" in c):
+                    hint = ("every disagreeing case has the shape of finding D7 and the C's output now satisfies the oracle: the repository "
+                            "seems to contain the D7 repair; the model must follow it (apply props/C06/model-after-D7-fix.patch and drop PENDING)")
+            except Exception:
+                pass
             ctx.violation("correspondence-broken", {"broken": "model EncWbxml.v and the C disagree; the C still satisfies the oracle on every generated case",
-                                                    "first_cases": corr[:5]}, found_input=False)
+                                                    "hint": hint, "first_cases": corr[:5]}, found_input=False)
     elif corr:
         ctx.coverage["note"] = "model/C disagreements also present: %d" % len(corr)
